@@ -1,16 +1,12 @@
-//! One function per generated Lean module.
+//! C10 translator items.
+use super::vars;
 use crate::util::*;
-use std::collections::BTreeMap;
 
-pub fn run(item: &str, repo: &str, out: &str) -> Result<String, String> {
+pub fn run(item: &str, repo: &str, out: &str) -> Option<Result<String, String>> {
     match item {
-        "rangediff-ops" => rangediff_ops(repo, out),
-        _ => Err(format!("unknown item {item}")),
+        "rangediff-ops" => Some(rangediff_ops(repo, out)),
+        _ => None,
     }
-}
-
-fn vars(pairs: &[(&str, &str)]) -> BTreeMap<String, String> {
-    pairs.iter().map(|(a, b)| (a.to_string(), b.to_string())).collect()
 }
 
 /// C10: the three comparison conditions of `ReplicationUpdateVector::range_diff`.
